@@ -48,6 +48,11 @@ Definition vec_le (n : nat) (tol : T) (e : vec) : bool := alln n (fun i => nleb 
 Definition svd_rank (rcond : T) (k : nat) (s : vec) : nat :=
   countn k (fun i => nltb K (nmul K rcond (s O)) (s i)).
 
+(** the documented default tolerance of the constructors / factor() overloads WITHOUT an rcond argument (FactorSVD and FactorQTZ):
+      rcond = max(nRow,nCol) * NTraits<P>::getSignificant(),   getSignificant() = eps^(7/8)  (passed in as [sig]) *)
+Definition default_rcond (sig : T) (m n : nat) : T := nmul K (nofZ K (Z.of_nat (Nat.max m n))) sig.
+Definition svd_rank_default (sig : T) (m n k : nat) (s : vec) : nat := svd_rank (default_rcond sig m n) k s.
+
 (** *** certificates *)
 (** U^T U = I and U U^T = I (n x n) *)
 Definition orth_resid (n : nat) (U : mat) : mat := fun i j => nsub K (mmul n (mtr U) U i j) (delta i j).
